@@ -247,6 +247,13 @@ class NormDomain(Domain):
             return args[0]
         if dotted == 'builtins.abs' or dotted in ('numpy.abs', 'numpy.absolute'):
             if a0 is not None and isinstance(args[0], Sym):
+                # |c * a| with a an atom known to be >= 0 (a declared lower bound / a positive atom) is |c| * a
+                known = set(getattr(self, 'positive', ()) or ()) | {k_ for k_, lo_ in (getattr(self, 'lower', None) or {}).items() if lo_ >= 0}
+                if known and a0.den.is_const() and len(a0.num.t) == 1:
+                    (mono, coef), = a0.num.t.items()
+                    if mono and all(at_ in known for at_, _ in mono):
+                        sign_ = coef / a0.den.const_value()
+                        return self.lift(a0 if sign_ > 0 else -a0)
                 return self.func_atom('abs', [args[0]])
         if dotted in ('builtins.max', 'builtins.min'):
             vals = args
